@@ -63,12 +63,25 @@ def h_accessors(F, R):
     bound = None
     adv = None
     from tables import const_eval
+    # the two running indices, identified by what is done to them (not by their names): the character counter is the variable
+    # incremented by the literal 1, the byte index is the other variable advanced once per character
+    counters = {}
     for x in walk_all(vb):
-        if x.get("k") == "Binary" and x["op"] in ("Lt", "Le") and pp(strip(x["l"])) == "char_idx":
+        if x.get("k") == "AssignOp" and x["op"] == "AddAssign" and strip(x["l"]).get("k") == "Var":
+            counters.setdefault(strip(x["l"])["var"]["id"], []).append(strip(x["r"]))
+    char_ids = {vid for vid, rs in counters.items() if all(const_eval(r) == 1 for r in rs)}
+    for x in walk_all(vb):
+        if x.get("k") == "For" and any(y.get("k") == "Call" and y["fn"].get("name") == "enumerate" for y in walk_all(x["iter"])):
+            pt = x["pat"]
+            if pt.get("k") == "Leaf" and pt.get("subs") and pt["subs"][0]["pat"].get("k") == "Binding":
+                char_ids.add(pt["subs"][0]["pat"]["var"]["id"])      # `for (char_idx, c) in value.chars().enumerate()`
+    byte_ids = {vid for vid, rs in counters.items() if vid not in char_ids}
+    for x in walk_all(vb):
+        if x.get("k") == "Binary" and x["op"] in ("Lt", "Le") and strip(x["l"]).get("k") == "Var" and strip(x["l"])["var"]["id"] in char_ids:
             c = const_eval(x["r"])
             if c is not None:
                 bound = c if x["op"] == "Lt" else c + 1
-        if x.get("k") == "AssignOp" and x["op"] == "AddAssign" and pp(strip(x["l"])) == "byte_idx":
+        if x.get("k") == "AssignOp" and x["op"] == "AddAssign" and strip(x["l"]).get("k") == "Var" and strip(x["l"])["var"]["id"] in byte_ids:
             r = strip(x["r"])
             adv = r["fn"].get("def") if r.get("k") == "Call" else pp(r)
     if chars is not None:
@@ -81,6 +94,42 @@ def h_accessors(F, R):
         R.check(adv == "core::char::methods::<impl char>::len_utf8", "H-accessors", "validator/byte-index-advance",
                 "the validator advances its byte index by %s instead of c.len_utf8(): the cached index is not a byte offset for multi-byte names" % adv,
                 where=adt + "::is_invalid")
+    # where the cached index comes from: every value is_invalid returns as the index is the literal 0 or a variable that is
+    # only ever assigned 0 or the running byte index (so a non-zero index is the byte offset of a character the validator
+    # looked at, beyond the 7-byte prefix: the accessors' text[7..index] cannot be an inverted range)
+    rets = []
+    for x in walk_all(vb):
+        if x.get("k") == "Return" and x.get("e") is not None:
+            rets.append(strip(x["e"]))
+    tail = unblock(vb)
+    if tail.get("k") == "Tuple":
+        rets.append(tail)
+    elif tail.get("k") == "Block" and tail.get("expr") is not None:
+        rets.append(strip(tail["expr"]))
+    idx_vars = set()
+    n_ret = 0
+    for r in rets:
+        r = unblock(r)
+        if r.get("k") != "Tuple" or len(r["items"]) != 2:
+            continue
+        n_ret += 1
+        v = strip(r["items"][1])
+        cv = const_eval(v)
+        if cv is not None:
+            R.check(cv == 0, "H-accessors", "validator/index-source/const-%d" % cv,
+                    "is_invalid returns the constant %d as the cached separator index: the accessors slice text[7..%d]" % (cv, cv), where=loc(r))
+        elif v.get("k") == "Var":
+            idx_vars.add(v["var"]["id"])
+        else:
+            R.fail("H-accessors", "validator/index-source/expr", "is_invalid returns `%s` as the cached separator index (neither 0 nor the tracked index variable)" % pp(v)[:60], where=loc(r))
+    for x in walk_all(vb):
+        if x.get("k") in ("Assign", "AssignOp") and strip(x["l"]).get("k") == "Var" and strip(x["l"])["var"]["id"] in idx_vars:
+            rhs = strip(x["r"])
+            while rhs.get("k") == "Cast":
+                rhs = strip(rhs["e"])
+            okk = x["k"] == "Assign" and (const_eval(rhs) == 0 or (rhs.get("k") == "Var" and rhs["var"]["id"] in byte_ids))
+            R.check(okk, "H-accessors", "validator/index-source/assign", "the cached separator index is assigned `%s` (expected 0 or the running byte index)" % pp(x["r"])[:60], where=loc(x))
+    R.check(n_ret >= 1, "H-accessors", "validator/index-source/returns", "is_invalid has no (bool, index) return value the rule recognises", where=adt + "::is_invalid")
     R.note("H-accessors does not decide that the index returned by is_invalid is the '/' that ends the share name (C16 territory); "
            "the two validator facts are checked only when the validator still has a `char_idx` bound / `byte_idx` advance")
 
@@ -339,8 +388,9 @@ def h_connack_flags(F, R):
     for fam in ("v3", "v5"):
         fid = "%s::connect::Connack::decode_async" % fam
         bad = []
-        for b in range(256):
-            def hook(d, res, args, node, env, b=b):
+        cases = [(b, 0) for b in range(256)] + [(b, c) for b in (0, 1) for c in range(1, 256)]
+        for b, code in cases:
+            def hook(d, res, args, node, env, b=b, code=code):
                 r = res or d
                 if node["fn"].get("name") == "read_exact":
                     # the two-byte payload buffer
@@ -348,8 +398,12 @@ def h_connack_flags(F, R):
                     while tgt.get("k") == "Call":
                         tgt = strip(tgt["args"][0])
                     if tgt.get("k") == "Var":
-                        env[tgt["var"]["id"]] = Tup([b, 0])
+                        env[tgt["var"]["id"]] = Tup([b, code])
                     return ok(UNIT)
+                if r == "common::utils::read_u8":
+                    st = env.setdefault("__connack_reads", [])
+                    st.append(1)
+                    return ok(b if len(st) == 1 else code)
                 if r.endswith("Properties::decode_async"):
                     return ok(Sym("props"))
                 return None
@@ -360,11 +414,17 @@ def h_connack_flags(F, R):
             except Undecided as e:
                 raise AnchorLost("%s cannot be evaluated: %s" % (fid, e))
             k = result_kind(r)
-            if b < 2:
-                okk = k[0] == "ok" and isinstance(k[1], Adt) and k[1].fields.get("session_present") is bool(b)
+            if b < 2 and k[0] == "ok":
+                # the packet carries the flag bit and the code byte exactly as they are on the wire
+                cv = k[1].fields.get("code", k[1].fields.get("reason_code")) if isinstance(k[1], Adt) else None
+                disc = enum_discriminants(F, cv.adt).get(cv.variant) if isinstance(cv, Adt) else None
+                okk = isinstance(k[1], Adt) and k[1].fields.get("session_present") is bool(b) and disc == code
+            elif b < 2:
+                okk = code != 0 and k[0] == "err"      # which variant: T-codes / H-raise
             else:
                 okk = k[0] == "err" and k[1].variant == "InvalidConnackFlags" and k[1].fields.get("0") == b
             if not okk:
-                bad.append((b, r))
+                bad.append(((b, code), r))
         R.check(not bad, "H-valid", "%s/connack-flags" % fam,
-                "%s CONNACK flags byte: %s" % (fam, "; ".join("%d -> %r" % x for x in bad[:3])), where=fid)
+                "%s CONNACK (flags byte, code byte): %s (specified: flags 0/1 -> session_present false/true whatever the code, "
+                "the code as on the wire; other flag bytes InvalidConnackFlags(byte))" % (fam, "; ".join("%r -> %r" % x for x in bad[:3])), where=fid)
